@@ -172,7 +172,9 @@ def check_shape(t, shape, style_names=None, iter_names=None, text=True):
         if not text:
             continue
         # text layout: str() and by_attr()
-        vals = ["x", "", "x\ny", "\n", "a\n\nb", ["l1", "l2"], [], ("t",), 7, "<missing>", 0, 0.0, False, None, {}, ()]
+        # ("further lines" are what str.splitlines() says: \r, \r\n, \f, \v, U+2028 ... separate lines like \n does)
+        vals = ["x", "", "x\ny", "\n", "a\n\nb", ["l1", "l2"], [], ("t",), 7, "<missing>", 0, 0.0, False, None, {}, (),
+                "c\rd", "e\r\nf", "g\x0ch\x0bi", "j\u2028k\x85l"]
         for rot in range(3):
             nodes = tree.build(m, tree.default_factory("user"), "topdown")
             idm = tree.IdMap(nodes)
@@ -242,6 +244,22 @@ def check_reprs(t, shape):
     import anytree
 
     m = tree.Model.from_shape(shape)
+    # a tree mixing Node classes with different separators: the path in a repr is joined with the separator of the class
+    # of the node that is printed
+    mixed = [type("Node", (anytree.Node,), {"separator": s_}) for s_ in ("/", ".", "->")]
+    nodes = [mixed[i % 3]("m%d" % i) for i in range(m.n)]
+    for i in range(m.n):
+        if m.par[i] is not None:
+            nodes[i].parent = nodes[m.par[i]]
+    for i in range(m.n):
+        sep = mixed[i % 3].separator
+        exp = "Node(%r)" % (sep + sep.join("m%d" % v for v in m.path(i)),)
+        t.c["evaluations"] += 1
+        t.c["reprs"] += 1
+        if repr(nodes[i]) != exp:
+            t.violation("C09: repr(Node) in a tree of classes with different separators differs",
+                        {"engine": "E2", "module": MOD, "part": "repr", "shape": shape, "separator": "mixed", "rot": 0, "node": i,
+                         "expected": exp, "observed": repr(nodes[i])})
     for sep in ("/", "|", "::"):
         NodeS = type("Node", (anytree.Node,), {"separator": sep})
         for rot in range(len(ATTRSETS)):
